@@ -35,13 +35,13 @@ def runM {α : Type} (x : M α) (s : S) : Except Stop α × S := x.run.run s
 @[simp] theorem runM_throw {α : Type} (e : Stop) (s : S) : runM (throw e : M α) s = (.error e, s) := rfl
 
 theorem runM_pollCancel (s : S) : runM pollCancel s =
-    if fires s then (.error (.cancelled (7000 + s.polls)), { s with polls := s.polls + 1, log := s!"P{s.polls}" :: s.log })
-    else (.ok (), { s with polls := s.polls + 1, log := s!"p{s.polls}" :: s.log }) := by
+    if fires s then (.error (.cancelled (7000 + s.polls)), { s with polls := s.polls + 1, log := s!"P{s.polls}" :: s.log, glog := .poll s.polls true :: s.glog })
+    else (.ok (), { s with polls := s.polls + 1, log := s!"p{s.polls}" :: s.log, glog := .poll s.polls false :: s.glog }) := by
   show (if fires s then _ else _) = _
   split <;> rfl
 
 
-@[simp] theorem runM_logCall (w : String) (s : S) : runM (logCall w) s = (.ok (), { s with log := w :: s.log }) := rfl
+@[simp] theorem runM_logCall (w : String) (g : GEv) (s : S) : runM (logCall w g) s = (.ok (), { s with log := w :: s.log, glog := g :: s.glog }) := rfl
 
 theorem runM_finishCands (U : Universe) (n : Nat) (s : S) :
     ∃ s', runM (finishCands U n) s = (.ok (), s') ∧ s'.fetchedCands = n :: s.fetchedCands := ⟨_, rfl, rfl⟩
